@@ -141,8 +141,34 @@ fn mask_of<M: Mask>(n: usize, f: impl Fn(usize) -> bool) -> M {
 }
 
 /// All trace oracles for the future-returning APIs.
+/// Function id an event is about, if any.
+fn ev_id(e: &Ev) -> Option<usize> {
+    match e {
+        Ev::Start(i) | Ev::End(i) | Ev::Release(i) | Ev::Yield(i) | Ev::YieldInterrupted(i) | Ev::Drop(i) => Some(*i as usize),
+        _ => None,
+    }
+}
+
 pub fn analyze_s<M: Mask>(info: &Info<M>, cfg: &RunCfg, res: &RunRes, out: &mut Vec<Viol>) -> Facts {
     let n = info.n;
+    // Nodes beyond the built functions exist only in graphs extended through DerefMut after
+    // build() (Spec::prov 6). Whether a run hands such a node out is not pinned down by any
+    // property; what is judged is the behaviour on the n built functions.
+    let filtered;
+    let res = if res.ev.iter().any(|e| ev_id(e).is_some_and(|i| i >= n)) {
+        let mut r = res.clone();
+        r.ev.retain(|e| ev_id(e).is_none_or(|i| i < n));
+        if let Some(o) = r.out.as_mut() {
+            o.processed.retain(|&i| i < n);
+            o.not_processed.retain(|&i| i < n);
+            o.errors.retain(|&i| i < n);
+            o.seed.retain(|&i| i < n);
+        }
+        filtered = r;
+        &filtered
+    } else {
+        res
+    };
     let rev = cfg.rev;
     let api = cfg.api;
     let concurrent = api.concurrent();
@@ -406,6 +432,15 @@ pub struct CFacts {
 /// All trace oracles for the stream APIs.
 pub fn analyze_c<M: Mask>(info: &Info<M>, cfg: &CCfg, res: &CRes, out: &mut Vec<Viol>) -> CFacts {
     let n = info.n;
+    let filtered;
+    let res = if res.ev.iter().any(|e| ev_id(e).is_some_and(|i| i >= n)) {
+        let mut r = res.clone();
+        r.ev.retain(|e| ev_id(e).is_none_or(|i| i < n));
+        filtered = r;
+        &filtered
+    } else {
+        res
+    };
     let rev = cfg.rev && cfg.api.takes_opts();
     let mut yielded = M::zero(n);
     let mut dropped = M::zero(n);
